@@ -284,22 +284,25 @@ def agePass (now : Nat) (c : Cfg) (fs : FS) (inv : List Row) (log : List Attempt
         let t := deleteFiles c.root fs inv cs
         ⟨t.1, t.2.1, .ok, log ++ t.2.2⟩
 
+/-- the size half (quota_manager.rs:202-208): no maximum ⇒ nothing to delete -/
+def sizeCands (fs : FS) (root : Path) (ord inv : List Row) : Option Nat → Option (List (Row × Path))
+  | none => some []
+  | some m => sizeCandidates fs root ord inv m
+
+def sizeCandsLegacy (fs : FS) (root : Path) (ord inv : List Row) : Option Nat → Option (List (Row × Path))
+  | none => some []
+  | some m => sizeCandidatesLegacy fs root ord inv m
+
 /-- `perform_eviction_if_needed` on an un-poisoned manager -/
 def evictCore (ord : List Row) (now : Nat) (c : Cfg) (fs : FS) (inv : List Row) : EvictRes :=
-  let cands := match c.maxSize with
-    | none => some []
-    | some m => sizeCandidates fs c.root ord inv m
-  match cands with
+  match sizeCands fs c.root ord inv c.maxSize with
   | none => ⟨fs, inv, .panicPoison, []⟩
   | some cs =>
     let t := deleteFiles c.root fs inv cs
     agePass now c t.1 t.2.1 t.2.2
 
 def evictCoreLegacy (ord : List Row) (now : Nat) (c : Cfg) (fs : FS) (inv : List Row) : EvictRes :=
-  let cands := match c.maxSize with
-    | none => some []
-    | some m => sizeCandidatesLegacy fs c.root ord inv m
-  match cands with
+  match sizeCandsLegacy fs c.root ord inv c.maxSize with
   | none => ⟨fs, inv, .panicPoison, []⟩
   | some cs =>
     let t := deleteFiles c.root fs inv cs
